@@ -133,6 +133,19 @@ Restore(s) ==
   /\ evald' = {} /\ raised' = FALSE
   /\ UNCHANGED <<gvars, auto, slots>>
 
+\* Model.set_seed: the seed value nodes are assigned one after the other (each assignment sweeps if auto-update is on)
+RECURSIVE AssignSeqRes(_, _, _, _, _, _)
+AssignSeqRes(as, i, v, f, d, a) ==
+  IF i > Len(as) THEN <<v, f, d, {}, FALSE>>
+  ELSE LET r == AssignRes(as[i][1], as[i][2], v, f, d, a) IN
+       IF r[5] THEN r
+       ELSE LET rest == AssignSeqRes(as, i + 1, r[1], r[2], r[3], a) IN
+            <<rest[1], rest[2], rest[3], r[4] \cup rest[4], rest[5]>>
+SetSeed(as) ==
+  /\ \A i \in 1..Len(as) : kind[as[i][1]] = "v"
+  /\ Set4(AssignSeqRes(as, 1, val, flag, dirty, auto))
+  /\ UNCHANGED <<gvars, auto, slots>>
+
 \* pop_nodes_and_vars, a value assigned to value node n while it belongs to no model, and a new model built from
 \* the same objects: Model.__init__ evaluates every node, nothing is outdated afterwards, auto-update is on again
 \* (o: the sweep order of the new model)
